@@ -453,7 +453,9 @@ def engine(chk, prop, replay, groups_fn, rule, gen_fn=None, need_edv=True):
                 else:
                     chk.violation("harness (feature pb-encode-default-value) does not build against the working tree: " + log[-300:],
                                   dict(kind="harness-build", output=log), no_input=True)
-            if bins:
+            if bins and not hasattr(pbgen, gen_fn):
+                chk.notes.append("generated-message level not available: pbgen.%s missing" % gen_fn)
+            elif bins:
                 corpus = pbgen.load_corpus()
                 f2, m2, n2 = getattr(pbgen, gen_fn)(chk, prop, corpus, bins, runner, rng, chk.tier, replay)
                 ngen = n2
